@@ -1,0 +1,31 @@
+//go:build verif
+
+package subsume
+
+// Contracts for the verification machinery in /verif (comment-only file;
+// excluded from every build without the "verif" tag).
+
+//@ func isBottom
+//@   ensures result == (isType(x, *adt.Bottom) && x.(*adt.Bottom) != nil)
+
+// the atom denoted by a concrete scalar value v satisfies bound b
+//@ spec func satValue(b *adt.BoundValue, v adt.Value) bool { satBound(b, valueKind(v), ite(isNumV(v), numIP(v), 0), ite(isNumV(v), numFP(v), 0.0), ite(isStrV(v), strVal(v), ""), isBoolV(v) && v.(*adt.Bool).B) }
+
+// operands a BoundValue can be built with (adt.BoundExpr.evaluate): null and
+// bool only under !=; regular expressions are strings
+//@ spec func validBound(b *adt.BoundValue) bool { (isNullV(b.Value) || isBoolV(b.Value) ==> b.Op == adt.NotEqualOp) && (b.Op == adt.MatchOp || b.Op == adt.NotMatchOp ==> isStrV(b.Value)) }
+
+// (P) C20: trim drops a conjunct only when subsumption says the rest implies it;
+// soundness of the leaf: bound(x, v) == true implies that everything v admits
+// is admitted by x. Precondition (from the call sites in tools/trim, which only
+// compare a conjunct with the vertex it was unified into): the operands are
+// kind-compatible.
+//@ func (*subsumer).bound
+//@   strings abstract
+//@   may_panic
+//@   requires s != nil && s.ctx != nil && s.ctx.errs == nil && x != nil && propOp(x.Op) && scalarV(x.Value) && wfV(x.Value) && validBound(x)
+//@   requires isType(v, *adt.BoundValue) ==> v.(*adt.BoundValue) != nil && propOp(v.(*adt.BoundValue).Op) && scalarV(v.(*adt.BoundValue).Value) && wfV(v.(*adt.BoundValue).Value) && validBound(v.(*adt.BoundValue)) && boundKind(x) & boundKind(v.(*adt.BoundValue)) != 0
+//@   requires !isType(v, *adt.BoundValue) ==> (scalarV(v) && wfV(v) && boundKind(x) & valueKind(v) != 0) || (isType(v, *adt.Bottom) && v.(*adt.Bottom) != nil)
+//@   ensures [bounds] result && isType(v, *adt.BoundValue) ==> forall ak adt.Kind, ai int, af real, as string, ab bool :: validAtom(ak, ai, af) && satBound(v.(*adt.BoundValue), ak, ai, af, as, ab) ==> satBound(x, ak, ai, af, as, ab)
+//@   ensures [scalar] isNumV(v) || isStrV(v) || isBoolV(v) ==> result == satValue(x, v)
+//@   assigns s.ctx.errs, s.ctx.src
